@@ -9,7 +9,7 @@ GEN_UNITS = ["FlowAlg"]
 PROPS_FILE = "Props/C11.v"
 PROPS_MOD = "Props.C11"
 COQ_TARGETS = ["Props/C11.vo"]
-SOURCES = ["deepali/core/flow.py", "deepali/modules/flow.py", "deepali/core/image.py", "deepali/core/grid.py",
+SOURCES = ["deepali/core/flow.py", "deepali/modules/flow.py", "deepali/core/image.py", "deepali/core/grid.py", "deepali/spatial/bspline.py",
            "deepali/spatial/nonrigid.py"]
 TRUSTED = [
     "Coq 8.16.1 kernel + vm_compute",
